@@ -122,14 +122,46 @@ class Expr2Mixin:
                 return default
             if not isinstance(v, (VInt, VBool)):
                 raise Unsupported("non-integer slice bound")
-            x = self.num(v)
+            x = z3.simplify(self.num(v))
+            if z3.is_int_value(x) and x.as_long() == 0:
+                return z3.IntVal(0)
+            if self._entails(s, z3.And(x >= 0, x <= n)):
+                return x                                        # in range: no clamping needed
+            if z3.is_int_value(x) and x.as_long() > 0:
+                return z3.If(x > n, n, x)
             x = z3.If(x < 0, x + n, x)
             return z3.If(x < 0, 0, z3.If(x > n, n, x))        # python clamps
 
         lo = z3.simplify(bound(sl.lower, z3.IntVal(0)))
         hi = z3.simplify(bound(sl.upper, n))
         ln = z3.simplify(z3.If(hi >= lo, hi - lo, 0))
-        yield s, s.new_list(VList(l.elem, l.arrs, z3.simplify(l.off + lo), ln))
+        if self._entails(s, hi >= lo):
+            ln = z3.simplify(hi - lo)
+        yield s, s.new_list(self.normalize_list(s, VList(l.elem, l.arrs, z3.simplify(l.off + lo), ln)))
+
+    @staticmethod
+    def _has_ite(t):
+        stack, seen = [t], set()
+        while stack:
+            x = stack.pop()
+            if x.get_id() in seen:
+                continue
+            seen.add(x.get_id())
+            if z3.is_app(x) and x.decl().kind() == z3.Z3_OP_ITE:
+                return True
+            stack.extend(x.children())
+        return False
+
+    def normalize_list(self, st, vl: VList) -> VList:
+        """a slice whose offset is an if-then-else term is copied to a fresh array at offset 0, so that element
+        terms stay usable as e-matching patterns"""
+        if not self._has_ite(vl.off) or not vl.arrs:
+            return vl
+        r = self.fresh_list(vl.elem, 'slice', n=vl.n)
+        k = z3.Int(fresh_name('sk'))
+        eqs = [z3.Select(ra, k) == z3.Select(a, vl.off + k) for ra, a in zip(r.arrs, vl.arrs)]
+        st.assume(z3.ForAll([k], z3.Implies(z3.And(0 <= k, k < vl.n), z3.And(*eqs)), patterns=[z3.Select(r.arrs[0], k)]))
+        return r
 
     def reversed_list(self, st, l: VList) -> VList:
         r = self.fresh_list(l.elem, 'rev', n=l.n)
@@ -276,8 +308,11 @@ class Expr2Mixin:
 
     def comprehension(self, node, st, scratch_frame=None):
         """[elt for x in src if cond]  with one generator over a list-like source"""
+        if len(node.generators) == 2:
+            yield from self.comprehension2(node, st)
+            return
         if len(node.generators) != 1:
-            raise Unsupported("comprehension with several generators (needs a contract at the call site)")
+            raise Unsupported("comprehension with more than two generators")
         gen = node.generators[0]
         s, src = self.ev1(gen.iter, st)
         it = self.iterable(s, src)
@@ -331,11 +366,73 @@ class Expr2Mixin:
         pats = [z3.Select(r.arrs[0], j)] if r.arrs else [idx(j)]
         s.assume(z3.ForAll([j], z3.Implies(z3.And(0 <= j, j < m), z3.And(*body)), patterns=[idx(j)] if not r.arrs else [pats[0], idx(j)]))
         s.assume(z3.ForAll([j, j2], z3.Implies(z3.And(0 <= j, j < j2, j2 < m), idx(j) < idx(j2)),
-                           patterns=[z3.MultiPattern(idx(j), idx(j2))]))
+                           patterns=[MP(idx(j), idx(j2))]))
         s.assume(z3.ForAll([k], z3.Implies(z3.And(0 <= k, k < it.n, cond),
                                            z3.And(0 <= inv(k), inv(k) < m, idx(inv(k)) == k)),
                            patterns=[inv(k)]))
         self.last_filter = dict(idx=idx, inv=inv, m=m, cond=lambda a: sub(cond, a), n=it.n)
+        s.lists.update({i: v for i, v in sc.lists.items() if i not in s.lists})
+        yield s, s.new_list(r)
+
+    def comprehension2(self, node, st):
+        """[elt for x in xs for y in f(x) if cond]: order-preserving flattening, described by ghost index maps
+        ci(k), pi(k) (outer / inner index of result element k) and their inverse pos(a, b)"""
+        g0, g1 = node.generators
+        if g0.ifs:
+            raise Unsupported("filter on the outer generator of a nested comprehension")
+        s, src0 = self.ev1(g0.iter, st)
+        it0 = self.iterable(s, src0)
+        a, b = z3.Int(fresh_name('fa')), z3.Int(fresh_name('fb'))
+        sc = s.fork()
+        sc.assume(0 <= a, a < it0.n)
+        base_pc = len(sc.pc)
+        self.qvars.append(a)
+        try:
+            self.bind_target(sc, g0.target, it0.at(a))
+            sc, src1 = self.ev1(g1.iter, sc)
+            it1 = self.iterable(sc, src1)
+            n1 = it1.n
+            sc.assume(0 <= b, b < n1)
+            self.qvars.append(b)
+            try:
+                self.bind_target(sc, g1.target, it1.at(b))
+                cond = None
+                for c in g1.ifs:
+                    sc, cv = self.ev1(c, sc)
+                    t = self.truth(sc, cv)
+                    cond = t if cond is None else z3.And(cond, t)
+                    sc.assume(t)
+                sc, elt = self.ev1(node.elt, sc)
+            finally:
+                self.qvars.pop()
+        finally:
+            self.qvars.pop()
+        if isinstance(elt, VListRef):
+            elt = sc.lists[elt.lid]
+        facts = [f for f in sc.pc[base_pc:] if not (cond is not None and f.eq(cond))]
+        facts = [f for f in facts if not f.eq(z3.And(0 <= b, b < n1))]
+        cond = cond if cond is not None else z3.BoolVal(True)
+        m = z3.Int(fresh_name('flat.len'))
+        r = self.fresh_list(elt.kind, 'flat', n=m)
+        ci = z3.Function(fresh_name('ci'), z3.IntSort(), z3.IntSort())
+        pi = z3.Function(fresh_name('pi'), z3.IntSort(), z3.IntSort())
+        pos = z3.Function(fresh_name('pos'), z3.IntSort(), z3.IntSort(), z3.IntSort())
+        k, k2 = z3.Int(fresh_name('fk')), z3.Int(fresh_name('fk2'))
+        sub = lambda f, x, y: z3.substitute(f, (a, x), (b, y))
+        eqs = [z3.Select(ra, k) == sub(c, ci(k), pi(k)) for ra, c in zip(r.arrs, elt.cols())]
+        body = [0 <= ci(k), ci(k) < it0.n, 0 <= pi(k), pi(k) < sub(n1, ci(k), pi(k)), sub(cond, ci(k), pi(k)),
+                pos(ci(k), pi(k)) == k] + eqs + [sub(f, ci(k), pi(k)) for f in facts]
+        s.assume(m >= 0)
+        s.assume(z3.ForAll([k], z3.Implies(z3.And(0 <= k, k < m), z3.And(*body)),
+                           patterns=[z3.Select(r.arrs[0], k), ci(k)] if r.arrs else [ci(k)]))
+        s.assume(z3.ForAll([a, b], z3.Implies(z3.And(0 <= a, a < it0.n, 0 <= b, b < n1, cond),
+                                              z3.And(0 <= pos(a, b), pos(a, b) < m, ci(pos(a, b)) == a, pi(pos(a, b)) == b)),
+                           patterns=[pos(a, b)]))
+        s.assume(z3.ForAll([k, k2], z3.Implies(z3.And(0 <= k, k < k2, k2 < m),
+                                               z3.Or(ci(k) < ci(k2), z3.And(ci(k) == ci(k2), pi(k) < pi(k2)))),
+                           patterns=[MP(ci(k), ci(k2))]))
+        self.last_flatten = dict(ci=ci, pi=pi, pos=pos, m=m, n0=it0.n, n1=lambda x: z3.substitute(n1, (a, x)),
+                                 cond=lambda x, y: sub(cond, x, y), r=r)
         s.lists.update({i: v for i, v in sc.lists.items() if i not in s.lists})
         yield s, s.new_list(r)
 
